@@ -1917,3 +1917,130 @@ Proof.
   - intros H. split; [|apply value_iff; exact H].
     inversion H as [s' v' Hi _|s' x Hi _]; subst; eapply IntSyn_naive; exact Hi.
 Qed.
+
+(* ------------------------------------------------------------------ *)
+(** * Whole lines: words, names, arity *)
+
+Definition all_space (l : list N) : Prop := forallb (fun c => c =? 32) l = true.
+Definition no_space (l : list N) : Prop := forallb (fun c => negb (c =? 32)) l = true.
+
+Lemma words_aux_nospace : forall tok rest cur, no_space tok ->
+  words_aux (tok ++ rest) cur = words_aux rest (rev tok ++ cur).
+Proof.
+  induction tok as [|c tok IH]; intros rest cur H; [reflexivity|].
+  unfold no_space in H. simpl in H. apply andb_true_iff in H. destruct H as [Hc Ht].
+  simpl. destruct (c =? 32); [discriminate|]. rewrite IH by exact Ht. rewrite <- app_assoc. reflexivity.
+Qed.
+
+Lemma words_aux_space : forall sp rest, all_space sp -> words_aux (sp ++ rest) [] = words_aux rest [].
+Proof.
+  induction sp as [|c sp IH]; intros rest H; [reflexivity|].
+  unfold all_space in H. simpl in H. apply andb_true_iff in H. destruct H as [Hc Ht].
+  simpl. rewrite Hc. apply IH. exact Ht.
+Qed.
+
+Lemma rev_nonempty' : forall (l : list N), l <> [] -> exists x t, rev l = x :: t.
+Proof.
+  intros l H. destruct (rev l) as [|x t] eqn:E; [|eauto].
+  exfalso. apply H. rewrite <- (rev_involutive l), E. reflexivity.
+Qed.
+
+Lemma words_token : forall sp tok rest, all_space sp -> no_space tok -> tok <> [] ->
+  (rest = [] \/ exists r', rest = 32 :: r') -> words (sp ++ tok ++ rest) = tok :: words rest.
+Proof.
+  intros sp tok rest Hsp Htok Hne Hrest. unfold words.
+  rewrite words_aux_space by exact Hsp. rewrite words_aux_nospace by exact Htok. rewrite app_nil_r.
+  destruct (rev_nonempty' tok Hne) as (x & t & E).
+  destruct Hrest as [-> |(r' & ->)]; simpl; rewrite E, <- E, rev_involutive; reflexivity.
+Qed.
+
+Lemma words_all_space : forall sp, all_space sp -> words sp = [].
+Proof.
+  intros sp H. unfold words. rewrite <- (app_nil_r sp). rewrite words_aux_space by exact H. reflexivity.
+Qed.
+
+Lemma token_loop_false_spec3 : forall chars start len, nodelim chars ->
+  exists tok rest, chars = tok ++ rest /\ token_loop chars start len false = Some (start, len + bytes tok) /\
+    no_space tok /\ (rest = [] \/ exists r', rest = 32 :: r').
+Proof.
+  induction chars as [|c chars IH]; intros start len Hn.
+  - exists [], []. repeat split; auto. simpl. f_equal. f_equal. lia.
+  - destruct (nodelim_cons _ _ Hn) as [Hc Hn']. simpl.
+    unfold is_delim in Hc. rewrite Hc. simpl andb.
+    destruct (N.eqb_spec c 32) as [->|Hne].
+    + exists [], (32 :: chars). repeat split; eauto. simpl. f_equal. f_equal. lia.
+    + simpl orb. apply orb_false_iff in Hc. destruct Hc as [-> ->]. simpl orb. cbv iota.
+      destruct (IH start (len + len_utf8 c) Hn') as (tok & rest & -> & E & Ht & Hr).
+      exists (c :: tok), rest. split; [reflexivity|]. split; [rewrite E; simpl; f_equal; f_equal; lia|].
+      split; [|exact Hr]. unfold no_space. simpl. rewrite (proj2 (N.eqb_neq c 32) Hne). exact Ht.
+Qed.
+
+Lemma token_loop_true_spec3 : forall chars start, nodelim chars ->
+  exists sp tok rest, chars = sp ++ tok ++ rest /\
+    token_loop chars start 0 true = Some (start + bytes sp, bytes tok) /\
+    all_space sp /\ no_space tok /\ (rest = [] \/ exists r', rest = 32 :: r') /\ (tok = [] -> rest = []).
+Proof.
+  induction chars as [|c chars IH]; intros start Hn.
+  - exists [], [], []. repeat split; auto. simpl. f_equal. f_equal. lia.
+  - destruct (nodelim_cons _ _ Hn) as [Hc Hn']. simpl.
+    unfold is_delim in Hc. rewrite Hc. simpl andb.
+    destruct (N.eqb_spec c 32) as [->|Hne].
+    + destruct (IH (start + len_utf8 32) Hn') as (sp & tok & rest & -> & E & Hs & Ht & Hr & He).
+      exists (32 :: sp), tok, rest. split; [reflexivity|]. split; [rewrite E; simpl; f_equal; f_equal; lia|].
+      repeat split; auto.
+    + simpl orb. apply orb_false_iff in Hc. destruct Hc as [-> ->]. simpl orb. cbv iota.
+      destruct (token_loop_false_spec3 chars start (0 + len_utf8 c) Hn') as (tok & rest & -> & E & Ht & Hr).
+      exists [], (c :: tok), rest. split; [reflexivity|]. split; [rewrite E; simpl; f_equal; f_equal; lia|].
+      split; [reflexivity|]. split; [|split; [exact Hr|intros; discriminate]].
+      unfold no_space. simpl. rewrite (proj2 (N.eqb_neq c 32) Hne). exact Ht.
+Qed.
+
+Lemma drop_while_all : forall p a b, forallb p a = true -> drop_while p (a ++ b) = drop_while p b.
+Proof.
+  induction a as [|c a IH]; intros b H; [reflexivity|]. simpl in *. apply andb_true_iff in H.
+  destruct H as [-> H]. apply IH. exact H.
+Qed.
+
+(** The text still to be read by the argument iterator. *)
+Definition Stream (a : arguments) (r : list N) : Prop :=
+  nodelim (buffer a) /\ exists p, buffer a = p ++ r /\ cursor a = bytes p.
+
+Definition after_word (r : list N) : list N :=
+  drop_while (fun c => negb (c =? 32)) (drop_while (fun c => c =? 32) r).
+
+Lemma next_token_stream : forall E a r, Stream a r ->
+  match words r with
+  | [] => @next_token_str E a = Ok (None, a)
+  | w :: ws => exists a', @next_token_str E a = Ok (Some w, a') /\ Stream a' (after_word r) /\
+                          words (after_word r) = ws /\ arg_count a' = arg_count a
+  end.
+Proof.
+  intros E a r [Hn (p & Hb & Hc)]. unfold next_token_str. rewrite Hc.
+  replace (drop_bytes (buffer a) (bytes p)) with (Some r) by (rewrite Hb; symmetry; apply drop_bytes_app).
+  assert (Hnr : nodelim r). { rewrite Hb in Hn. apply nodelim_app in Hn. tauto. }
+  destruct (token_loop_true_spec3 r (bytes p) Hnr) as (sp & tok & rest & Er & -> & Hsp & Htok & Hrest & Hemp).
+  destruct tok as [|t0 tok'].
+  - rewrite (Hemp eq_refl) in Er. simpl in Er. rewrite app_nil_r in Er. subst r.
+    rewrite (words_all_space sp Hsp). simpl bytes.
+    destruct (N.eqb_spec (bytes p + bytes sp) (bytes p + bytes sp + 0)); [reflexivity|lia].
+  - set (tok := t0 :: tok') in *.
+    assert (Hw : words r = tok :: words rest). { rewrite Er. apply words_token; auto. discriminate. }
+    rewrite Hw.
+    assert (Haw : after_word r = rest).
+    { unfold after_word. rewrite Er. rewrite drop_while_all by exact Hsp.
+      assert (E1 : drop_while (fun c => c =? 32) (tok ++ rest) = tok ++ rest).
+      { subst tok. unfold no_space in Htok. simpl in Htok. apply andb_true_iff in Htok. destruct Htok as [H0 _].
+        simpl. destruct (t0 =? 32); [discriminate|reflexivity]. }
+      rewrite E1. rewrite drop_while_all by exact Htok.
+      destruct Hrest as [-> |(r' & ->)]; reflexivity. }
+    rewrite Haw.
+    assert (Hpos : bytes tok <> 0). { subst tok. simpl. pose proof (len_utf8_pos t0). lia. }
+    destruct (N.eqb_spec (bytes p + bytes sp) (bytes p + bytes sp + bytes tok)); [lia|].
+    assert (Hs : slice (buffer a) (bytes p + bytes sp) (bytes p + bytes sp + bytes tok) = Some tok).
+    { rewrite Hb, Er. replace (p ++ sp ++ tok ++ rest) with ((p ++ sp) ++ tok ++ rest) by (rewrite <- app_assoc; reflexivity).
+      rewrite <- bytes_app. apply slice_app. }
+    rewrite Hs. eexists. split; [reflexivity|]. split; [|split; reflexivity].
+    split; [exact Hn|]. exists (p ++ sp ++ tok). cbn [buffer cursor]. split.
+    + rewrite Hb, Er, <- !app_assoc. reflexivity.
+    + rewrite !bytes_app. lia.
+Qed.
